@@ -241,9 +241,10 @@ def check_decode(d, data):
         raise Violation("reencode-differs", data=data, got=o2)
 
 
-@meta(bounds="every octet string of length n (one instance per length; every octet symbolic; the longer "
-             "lengths are split into 8 instances by the three top bits `hi` of the second octet, whose low "
-             "five bits stay symbolic, plus one instance `hi=-1` for every first octet other than 1)",
+@meta(bounds="every octet string of length n (one instance per length, every octet symbolic).  From 9 "
+             "octets on the strings are shared out over 9 instances: `hi` = 0..7 fixes the three top bits of "
+             "the control octet of a version-1 string (its low five bits stay symbolic), `hi=-1` takes every "
+             "first octet other than 1",
       outside="octet strings longer than the largest n (longer *valid* shapes are covered by npci_mutated)",
       stubs=[], assumes=[])
 def npci_decode_total(d, n, hi=None):
@@ -254,8 +255,7 @@ def npci_decode_total(d, n, hi=None):
         d.assume(v != 1)
         data = bytes([v]) + octets(d, n - 1, 'r')
     else:
-        # the library masks single bits of the control octet, which makes the engine
-        # enumerate its 256 values: share them out over 8 processes
+        # the parse tree fans out on the control octet first: share it out over 8 processes
         data = bytes([1, hi * 32 + d.int(0, 31, 'o1lo')]) + octets(d, n - 2, 'r')
     check_decode(d, data)
     d.reach()
@@ -514,35 +514,30 @@ def netmsg_rt(d, mt, lists, nents, infolens):
 def instances(tier):
     q = tier == "quick"
     out = []
-    # --- npci_rt.  Path count per instance = |dlens| x |slens| x |paylens| x 8 (x2 for mk=net):
-    # the library's `control |= priority & 3` and `if expectingReply` enumerate 4 x 2 values
+    # --- npci_rt.  Paths per instance = |dlens| x |slens| x |paylens| x 2 (expecting reply) x 2 (mk=net:
+    # message type below / from 0x80)
     lens = [1, 2, 6, 7] if q else [1, 2, 6, 7, 255]
+    pl = [0, 4] if q else [0, 1, 2, 3, 4]
     for dk in ('none', 'station', 'rbcast', 'global'):
         for sk in ('none', 'station'):
             for mk in ('apdu', 'net'):
                 both = dk == 'station' and sk == 'station'
-                if q:
-                    # quick: payload of 0 or 4 octets; with both addresses present the source
-                    # is 1 or 6 octets long (all four source lengths run with the other
-                    # destination kinds)
-                    parts = [(lens, [1, 6] if both else lens, [0, 4])]
-                elif both:
-                    parts = [([n], lens, [0, 1, 2, 3, 4]) for n in lens]
-                else:
-                    parts = [(lens, lens, [0, 1, 2, 3, 4])]
-                for dl, sl, pl in parts:
+                # thorough, both addresses present: one process per destination length
+                parts = [[n] for n in lens] if (both and not q) else [lens]
+                for dl in parts:
                     label = "%s,%s,%s" % (dk, sk, mk) + (",dlen=%d" % dl[0] if len(parts) > 1 else "")
-                    # (the larger budget also makes the pool start the biggest tree first)
-                    out.append(Inst(npci_rt, dict(dk=dk, sk=sk, mk=mk, dlens=dl, slens=sl, paylens=pl),
+                    # (the larger budget also makes the pool start the biggest trees first)
+                    out.append(Inst(npci_rt, dict(dk=dk, sk=sk, mk=mk, dlens=dl, slens=lens, paylens=pl),
                                     budget=(120 if both else 90) if q else 600, label=label))
-    # --- npci_decode_total: every string of 0..nmax octets
-    nmax = 6 if q else 11
+    # --- npci_decode_total: every string of 0..nmax octets; from 9 octets on one process per
+    # class of control octet
+    nmax = 8 if q else 14
     for n in range(0, nmax + 1):
-        if n < 5:
-            out.append(Inst(npci_decode_total, dict(n=n), budget=90 if q else 300))
+        if n < 9:
+            out.append(Inst(npci_decode_total, dict(n=n), budget=120 if n == 8 else 90))
         else:
             for hi in range(-1, 8):
-                out.append(Inst(npci_decode_total, dict(n=n, hi=hi), budget=90 if q else 600))
+                out.append(Inst(npci_decode_total, dict(n=n, hi=hi), budget=600))
     # --- npci_mutated
     for dk in ('none', 'station', 'rbcast', 'global'):
         for sk in ('none', 'station'):
@@ -558,14 +553,13 @@ def instances(tier):
                     parts = [([1, 2, 6], [1, 2, 6])]
                 for dl, sl in parts:
                     label = "%s,%s,%s" % (dk, sk, mk) + (",dlen=%d" % dl[0] if len(parts) > 1 else "")
-                    out.append(Inst(npci_mutated, dict(dk=dk, sk=sk, mk=mk, dlens=dl, slens=sl,
-                                                       ctl='flip' if q else 'any'),
-                                    budget=90 if q else 900, label=label))
+                    out.append(Inst(npci_mutated, dict(dk=dk, sk=sk, mk=mk, dlens=dl, slens=sl, ctl='any'),
+                                    budget=(120 if both else 90) if q else 900, label=label))
     # --- netmsg_rt
     for mt in sorted(R.MESSAGE_TYPES):
         out.append(Inst(netmsg_rt, dict(mt=mt, lists=[0, 1, 2, 3] if q else [0, 1, 2, 3, 4, 5],
                                         nents=[0, 1, 2], infolens=[0, 1, 2]),
-                        budget=90 if q else 400, label="mt=0x%02x" % mt))
+                        budget=60 if q else 400, label="mt=0x%02x" % mt))
     if not q:
         for mt in (0x01, 0x04, 0x05):
             out.append(Inst(netmsg_rt, dict(mt=mt, lists=[20], nents=[], infolens=[]),
